@@ -505,45 +505,104 @@ theorem real_pop_is_min {h : HPQ} (hr : ReachableH h) :
       rw [he]; exact (List.perm_cons_erase hmem).symm
     exact ((r'.items.cons x).trans this).trans r.items.symm
 
-/-! ## events added by a failing rule -/
+/-! ## `ProcessEvent` composed with the queue: which events a trigger sequence leaves behind -/
 
-open Cascade in
-/-- **Events a rule added are still processed when the rule fails.** For every script (any tree of
-    events, priorities, skipped events, failing rules; both variants of the bookkeeping) run by
-    the worker loop of the cascade model: if the action of event `i` was started, every triggering
-    event `c` that this action adds is started as well — whether or not `i`'s rule then returns
-    an error — and a failing `i` is in the error report. The queue is empty at the end. -/
-theorem children_of_failing_rule_still_run (cfg : Book.Cfg) (nodes : List Node) (i c : Nat)
-    (ni nc : Node) (hi : nodes[i]? = some ni) (hc : nodes[c]? = some nc)
-    (hpar : nc.parent = some i) (htrig : nc.trig = true)
-    (hstart : i ∈ (runScript cfg nodes).started.map (·.1)) :
-    c ∈ (runScript cfg nodes).started.map (·.1) ∧
-    (ni.fails = true → i ∈ (runScript cfg nodes).errs) ∧
-    (runScript cfg nodes).q.items = [] := by
-  obtain ⟨hI, hq⟩ := runScript_spec cfg nodes
-  have hq' : (runScript cfg nodes).q.items = [] := by simpa [qv] using hq
-  refine ⟨?_, ?_, hq'⟩
-  · rcases hI.clo i hstart c nc hc hpar htrig with h | h
+section cascade
+open Cascade
+variable (cfg : Book.Cfg) (sort : List Rule → List Rule) (hs : IsPrioSort sort) (flag : Bool)
+  (nodes : List Node)
+
+/-- started (event, rule) pairs / events taken by the worker / error report of a run -/
+abbrev startedRules := (runScript cfg sort flag nodes).started.map (·.1)
+abbrev taken := (runScript cfg sort flag nodes).popped
+
+include hs
+
+/-- **Exactly the rules `ProcessEvent` starts are started, for exactly the events taken**: an action
+    (event `e`, rule `k`) is started iff the worker took `e` and `k` is among the rules
+    `processRules` runs for `e` (all of them without the flag, the prefix through the first failing
+    one with it); the error report holds exactly the error maps of the taken events. -/
+theorem started_rules_exact (e k : Nat) :
+    ((e, k) ∈ startedRules cfg sort flag nodes ↔
+      e ∈ taken cfg sort flag nodes ∧ k ∈ (processRules sort flag (rulesOf nodes e)).1.map (·.name)) ∧
+    ((e, k) ∈ (runScript cfg sort flag nodes).errs ↔
+      e ∈ taken cfg sort flag nodes ∧ k ∈ (processRules sort flag (rulesOf nodes e)).2.map (·.name)) := by
+  obtain ⟨hI, _⟩ := runScript_spec cfg sort hs.perm flag nodes
+  exact ⟨hI.srs e k, hI.ers e k⟩
+
+/-- **Events added by a started rule are processed — also when that rule, or a later one, fails.**
+    For every script, either flag, any admissible sort: if the action of rule `k` of event `e` was
+    started, every triggering event `c` it adds is taken by the worker and the rules `ProcessEvent`
+    selects for `c` are started in turn. The queue is empty at the end. -/
+theorem children_of_failing_rule_still_run (e k c : Nat) (nc : Node)
+    (hstart : (e, k) ∈ startedRules cfg sort flag nodes)
+    (hc : nodes[c]? = some nc) (hpar : nc.parent = some (e, k)) (htrig : nc.trig = true) :
+    c ∈ taken cfg sort flag nodes ∧
+    (∀ k' ∈ (processRules sort flag (rulesOf nodes c)).1.map (·.name),
+      (c, k') ∈ startedRules cfg sort flag nodes) ∧
+    (runScript cfg sort flag nodes).q.items = [] := by
+  obtain ⟨hI, hq⟩ := runScript_spec cfg sort hs.perm flag nodes
+  have hq' : (runScript cfg sort flag nodes).q.items = [] := by simpa [qv] using hq
+  obtain ⟨he, hk⟩ := (hI.srs e k).mp hstart
+  have hct : c ∈ taken cfg sort flag nodes := by
+    rcases hI.clo e he k hk c nc hc hpar htrig with h | h
     · exact h
     · rw [hq] at h; cases h
-  · intro hf
-    exact hI.err i hstart (by simp [hi, hf])
+  exact ⟨hct, fun k' hk' => (hI.srs c k').mpr ⟨hct, hk'⟩, hq'⟩
 
-/-- every event added from outside that triggers a rule is started; no event is started twice -/
-theorem cascade_runs_each_event_once (cfg : Book.Cfg) (nodes : List Cascade.Node) :
-    ((Cascade.runScript cfg nodes).started.map (·.1)).Nodup ∧
-    ∀ c nc, nodes[c]? = some nc → nc.parent = none → nc.trig = true →
-      c ∈ (Cascade.runScript cfg nodes).started.map (·.1) := by
-  obtain ⟨hI, _⟩ := Cascade.runScript_spec cfg nodes
+/-- **Rules that were not started add nothing**: an event taken by the worker triggers a rule and
+    was added from outside or by a rule whose action was started; no event is taken twice. -/
+theorem unstarted_rules_add_nothing :
+    (taken cfg sort flag nodes).Nodup ∧
+    ∀ c ∈ taken cfg sort flag nodes, ∀ nc, nodes[c]? = some nc →
+      nc.trig = true ∧ ∀ e k, nc.parent = some (e, k) → (e, k) ∈ startedRules cfg sort flag nodes := by
+  obtain ⟨hI, _⟩ := runScript_spec cfg sort hs.perm flag nodes
   refine ⟨hI.n1, ?_⟩
-  intro c nc hc hp ht
-  exact Cascade.external_started cfg nodes c nc hc hp ht
+  intro c hc nc hnc
+  refine ⟨hI.trg c (Or.inl hc) nc hnc, ?_⟩
+  intro e k hp
+  exact (hI.srs e k).mpr (hI.par c (Or.inl hc) nc e k hnc hp)
 
-example : ((Cascade.runScript Book.current
-    [⟨none, none, true, true⟩, ⟨some 0, some 3, true, false⟩, ⟨some 0, some 1, true, false⟩]).started.map (·.1),
-    (Cascade.runScript Book.current
-    [⟨none, none, true, true⟩, ⟨some 0, some 3, true, false⟩, ⟨some 0, some 1, true, false⟩]).errs)
-    = ([1, 2, 0], [0]) := by decide
+/-- every triggering event added from outside is taken -/
+theorem external_events_run (c : Nat) (nc : Node) (hc : nodes[c]? = some nc)
+    (hp : nc.parent = none) (ht : nc.trig = true) : c ∈ taken cfg sort flag nodes := by
+  obtain ⟨hI, hq⟩ := runScript_spec cfg sort hs.perm flag nodes
+  rcases hI.ext c nc hc hp ht with h | h
+  · exact h
+  · rw [hq] at h; cases h
+
+/-- **With fail-on-first-error, per event**: if a rule of a taken event fails, the first failing one
+    (in the sorted order) is started, is the only entry of that event in the error report, and no
+    rule sorted after it is started; rules sorted before it are started (and so are their events,
+    by `children_of_failing_rule_still_run`). -/
+theorem first_failure_ends_the_sequence (e : Nat) (r : Rule)
+    (he : e ∈ taken cfg sort true nodes)
+    (hr : (sort (rulesOf nodes e)).find? (·.fails) = some r) :
+    (e, r.name) ∈ startedRules cfg sort true nodes ∧
+    (∀ k, (e, k) ∈ (runScript cfg sort true nodes).errs ↔ k = r.name) ∧
+    (∀ k, (e, k) ∈ startedRules cfg sort true nodes ↔
+      k ∈ (uptoFirstFail (sort (rulesOf nodes e))).map (·.name)) := by
+  have h1 := fun k => (started_rules_exact cfg sort hs true nodes e k)
+  have hp := (fail_first_prefix sort (rulesOf nodes e)).1
+  refine ⟨?_, ?_, ?_⟩
+  · rw [(h1 r.name).1]
+    exact ⟨he, List.mem_map_of_mem (failing_rule_was_started sort _ r hr).1⟩
+  · intro k
+    rw [(h1 k).2, hp, hr]
+    simp [he]
+  · intro k
+    rw [(h1 k).1, hp]
+    simp [he]
+
+end cascade
+
+example : ((Cascade.runScript Book.current stableSort true
+    [⟨none, none, [(1, true), (0, false), (2, false)]⟩, ⟨some (0, 0), some 3, [(0, false)]⟩,
+     ⟨some (0, 1), some 1, [(0, false)]⟩, ⟨some (0, 2), some 0, [(0, false)]⟩]).started.reverse.map (·.1),
+    (Cascade.runScript Book.current stableSort true
+    [⟨none, none, [(1, true), (0, false), (2, false)]⟩, ⟨some (0, 0), some 3, [(0, false)]⟩,
+     ⟨some (0, 1), some 1, [(0, false)]⟩, ⟨some (0, 2), some 0, [(0, false)]⟩]).errs)
+    = ([(0, 1), (0, 0), (2, 0), (1, 0)], [(0, 0)]) := by decide
 
 /-! ## the root monitor's highest-priority report -/
 
